@@ -2,6 +2,7 @@
   C05 — property theorems only. Each event maps to exactly one cause; handler kinds are exclusive.
 -/
 import Kopf.Model.C05_Cause
+import Kopf.Lemmas.C05_Record
 namespace Kopf.C05
 
 /-- The property's precedence list, written declaratively (no if-chain). -/
@@ -266,5 +267,111 @@ example : subInvocable ⟨some .update, false, false, true⟩ (subOf ⟨some .up
 example : invocableS ⟨none, true, true, true⟩ ⟨false, true, true, false, false, true⟩ = true ∧
     subInvocable ⟨none, true, true, true⟩ (subOf ⟨none, true, true, true⟩) ⟨false, true, true, false, false, true⟩ = false := by decide
 example : decorated ⟨some .delete, false, false, false⟩ = true := by decide
+
+/-! ### Whose record is it: the fact "never handled" comes from the object's OWN record (Model/C05_Record)
+  "Handled" is the framework's own record on that object: for a ReplicaSet owned by a Deployment the names marked
+  "-ofDRS" (the plain names there carry what Kubernetes copied down from the Deployment), for everything else the
+  plain names; under a status storage the status field; under a multi-storage any of its sub-storages. All of it
+  for EVERY key former `keysOf` (`make_keys`), every record name, all annotations. -/
+
+/-- The storage's answer depends on nothing but the object's own names: two objects of the same kind and owners whose
+    annotations agree under those names (and whose status field agrees) have the same stored state — whatever else
+    they carry (records of their owners, of other operators, under look-alike names). -/
+theorem fetch_reads_own_record_only {E} (ss : List Storage) (o o' : Obj E)
+    (hk : o'.kind = o.kind) (ho : o'.ownerKinds = o.ownerKinds) (hs : o'.statusRecord = o.statusRecord)
+    (ha : ∀ keysOf key, Storage.ann keysOf key ∈ ss →
+            ∀ k ∈ ownKeys keysOf key o, lookup k o'.annotations = lookup k o.annotations) :
+    fetchMulti ss o' = fetchMulti ss o := by
+  apply firstSome_congr
+  intro s hsmem
+  cases s with
+  | status => simp [fetchSimple, hs]
+  | ann keysOf key =>
+    have hkeys : ownKeys keysOf key o' = ownKeys keysOf key o := by
+      simp [ownKeys, markKey, isDRS, hk, ho]
+    simp only [fetchSimple, fetchAnn, hkeys]
+    exact firstSome_congr _ _ _ (ha keysOf key hsmem)
+
+/-- No record of its own under any of the configured storages ⇔ the storage has nothing ("never handled"). -/
+theorem never_handled_iff_no_own_record {E} (ss : List Storage) (o : Obj E) :
+    fetchMulti ss o = none ↔ ∀ s ∈ ss, NoOwnRecord s o := by
+  simp [fetchMulti, firstSome_none_iff, fetchSimple_none_iff]
+
+/-- What the storage returns IS a record of the object's own: stored under one of its own names (or in the status
+    field), never anything found elsewhere. -/
+theorem fetched_is_own_record {E} (ss : List Storage) (o : Obj E) (e : E) (h : fetchMulti ss o = some e) :
+    (Storage.status ∈ ss ∧ o.statusRecord = some e) ∨
+    ∃ keysOf key, Storage.ann keysOf key ∈ ss ∧ ∃ k ∈ ownKeys keysOf key o, lookup k o.annotations = some e := by
+  obtain ⟨s, hs, hf⟩ := firstSome_some_mem _ _ _ h
+  cases s with
+  | status => exact Or.inl ⟨hs, hf⟩
+  | ann keysOf key =>
+    obtain ⟨k, hk, hl⟩ := firstSome_some_mem _ _ _ hf
+    exact Or.inr ⟨keysOf, key, hs, k, hk, hl⟩
+
+/-- THE CLAUSE: an object without a record of its own, not gone and not marked for deletion, is a CREATION whatever
+    else it carries, whether or not it is a first sight: the creation handlers are invocable, the update handlers,
+    the resuming ones and the field-less kinds of other causes are not. -/
+theorem never_handled_is_creation {E} (ss : List Storage) (o : Obj E) (blocked diff initial : Bool)
+    (hown : ∀ s ∈ ss, NoOwnRecord s o) :
+    let i := factsOf false false blocked (fetchMulti ss o) diff initial
+    detectReason i = .create ∧
+    invocableS ⟨some .create, false, false, false⟩ i = true ∧
+    (∀ h : Shape, h.reason = some .update ∨ h.reason = some .delete ∨ h.initial = true → invocableS h i = false) := by
+  have hn : fetchMulti ss o = none := (never_handled_iff_no_own_record ss o).2 hown
+  simp only [hn, factsOf, Option.isNone_none]
+  refine ⟨by simp [detectReason], by simp [invocableS, detect, detectReason, gateS, handlerReasons], ?_⟩
+  intro h hk
+  rcases h with ⟨hr, hi, hd, hn'⟩
+  rcases hk with hk | hk | hk <;> cases initial <;>
+    simp_all [invocableS, detect, detectReason, gateS, handlerReasons]
+
+/-- … and an object WITH a record of its own is never a creation. -/
+theorem handled_is_not_creation {E} (ss : List Storage) (o : Obj E) (e : E) (d m b diff initial : Bool)
+    (h : fetchMulti ss o = some e) :
+    detectReason (factsOf d m b (fetchMulti ss o) diff initial) ≠ .create := by
+  rcases hd : d <;> rcases hm : m <;> rcases hb : b <;> rcases hdf : diff <;> rcases hi : initial <;>
+    simp [h, factsOf, detectReason]
+
+/-- The fall-back of seeded change C05g changes nothing for objects that are not a Deployment's ReplicaSets (their
+    own names ARE the plain ones: nothing is left to fall back to) … -/
+theorem fallback_agrees_off_DRS {E} (keysOf : String → List String) (key : String) (o : Obj E)
+    (h : isDRS o = false) : fetchAnnFallback keysOf key o = fetchAnn keysOf key o := by
+  simp only [fetchAnnFallback, fetchAnn, ownKeys_plain keysOf key o h, filter_not_contains_self, List.append_nil]
+
+/-- … and nothing for objects that have a record of their own … -/
+theorem fallback_agrees_when_handled {E} (keysOf : String → List String) (key : String) (o : Obj E) (e : E)
+    (h : fetchAnn keysOf key o = some e) : fetchAnnFallback keysOf key o = some e := by
+  simp only [fetchAnnFallback]
+  exact firstSome_append_of_some _ _ _ _ h
+
+/-- … but it breaks the clause exactly where the marks exist for: a never-handled ReplicaSet of a Deployment that
+    carries the DEPLOYMENT's propagated record is taken for handled — an update (or, unchanged and at first sight,
+    a resume) instead of a creation: the update handler is invocable, the creation handler is not. -/
+theorem fallback_witness :
+    ∃ (o : Obj Nat) (keysOf : String → List String) (key : String),
+      NoOwnRecord (.ann keysOf key) o ∧ fetchAnn keysOf key o = none ∧
+      fetchAnnFallback keysOf key o = some 7 ∧
+      (let i := factsOf false false true (fetchAnnFallback keysOf key o) true false
+       detectReason i = .update ∧ invocableS ⟨some .update, false, false, true⟩ i = true ∧
+       invocableS ⟨some .create, false, false, false⟩ i = false) ∧
+      detectReason (factsOf false false true (fetchAnn keysOf key o) true false) = .create :=
+  ⟨⟨"ReplicaSet", ["Deployment"], [("kopf.zalando.org/last-handled-configuration", some 7)], none⟩,
+   fun n => ["kopf.zalando.org/" ++ n], "last-handled-configuration",
+   (fetchAnn_none_iff _ _ _).1 (by decide), by decide, by decide, by decide, by decide⟩
+
+-- non-vacuity of the hypotheses: a Deployment's ReplicaSet carrying only its owner's record has no own record …
+example : NoOwnRecord (.ann (fun n => ["p/" ++ n]) "lhc")
+    (⟨"ReplicaSet", ["Other", "Deployment"], [("p/lhc", some 1), ("q/lhc-ofDRS", some 2)], none⟩ : Obj Nat) :=
+  (fetchAnn_none_iff _ _ _).1 (by decide)
+-- … one carrying its own record (next to the owner's) is handled, and the storage returns its own
+example : fetchMulti [.ann (fun n => ["p/" ++ n]) "lhc", .status]
+    (⟨"ReplicaSet", ["Deployment"], [("p/lhc", some 1), ("p/lhc-ofDRS", some 2)], some 3⟩ : Obj Nat) = some 2 := by decide
+-- … a standalone ReplicaSet goes by the plain name; a look-alike "-ofDRS" record is not its own
+example : fetchAnn (fun n => ["p/" ++ n]) "lhc"
+    (⟨"ReplicaSet", [], [("p/lhc-ofDRS", some 2)], none⟩ : Obj Nat) = none := by decide
+example : fetchAnn (fun n => ["p/" ++ n]) "lhc"
+    (⟨"ReplicaSet", ["ReplicaSet"], [("p/lhc-ofDRS", some 2), ("p/lhc", none), ("p/lhc", some 4)], none⟩ : Obj Nat) = none := by
+  decide
 
 end Kopf.C05
